@@ -33,6 +33,8 @@ type LoopSpec struct {
 	// MaxIter > 0 bounds the number of iterations explored along one path; after that many the
 	// loop is treated as exhausted (used to look at the per-element effect of accumulating loops).
 	MaxIter int
+	// MinIter > 0: a symbolic range loop is not treated as exhausted before that many iterations.
+	MinIter int
 }
 
 type Hooks struct {
@@ -740,7 +742,9 @@ func (in *Interp) execLoop(loop ast.Stmt, st *State, label string) []result {
 			enter = append(enter, s)
 		default:
 			// range over something symbolic: it may be exhausted or not
-			exit(s.clone())
+			if spec == nil || s.iterCnt[loop] >= spec.MinIter {
+				exit(s.clone())
+			}
 			enter = append(enter, s)
 		}
 		for _, e0 := range enter {
